@@ -167,6 +167,7 @@ type UploadScenario struct {
 // FileOpts tunes CountFiles.
 type FileOpts struct {
 	StrictOS  bool // keep GOOS/GOARCH inside the configuration's lists
+	MixedOS   bool // GOOS/GOARCH from the lists for about 3 of 4 builds, from the pool otherwise
 	AllowBad  bool // mix in empty / unparseable files
 	BigValues bool
 	MaxFiles  int
@@ -239,7 +240,7 @@ func CountFiles(t *rapid.T, cfg *telemetry.UploadConfig, ends []time.Time, o Fil
 				b.GoVersion = "go1.99" + m
 			}
 		}
-		if o.StrictOS {
+		if o.StrictOS || (o.MixedOS && rapid.IntRange(0, 3).Draw(t, "listedOS") != 0) {
 			b.GOOS = rapid.SampledFrom(cfg.GOOS).Draw(t, "goos")
 			b.GOARCH = rapid.SampledFrom(cfg.GOARCH).Draw(t, "goarch")
 		} else {
